@@ -8,6 +8,7 @@ import (
 	"math/rand"
 	"net"
 	"os"
+	"runtime/debug"
 	"strings"
 	"sync"
 	"time"
@@ -275,6 +276,16 @@ func c18TCP(c *vk.Ctx, r *rand.Rand, catcher *panicCatcher) bool {
 	if !ok {
 		return false
 	}
+	// all client connections are over: the server must have closed every target connection it
+	// opened (the passive targets end as soon as they see EOF or RST; their own read deadline is 10 s)
+	for i := 0; i < 300 && hub.Open.Load() > 0; i++ {
+		time.Sleep(10 * time.Millisecond)
+	}
+	if n := hub.Open.Load(); n > 0 {
+		c.Violation("C18/target-connection-left-open-after-client-connection-ended", map[string]any{"target_connections_still_open": n})
+		return false
+	}
+	c.Count("target_connections_all_closed_audits", 1)
 	// listener shutdown mid-handshake and mid-relay: StreamServe returns only after all handlers
 	var open []*SSClient
 	for i := 0; i < 6; i++ {
@@ -324,6 +335,46 @@ func c18TCP(c *vk.Ctx, r *rand.Rand, catcher *panicCatcher) bool {
 	}
 	c.Count("tcp_shutdown_orderings_checked", 1)
 	c.Eval("tcp|listener-shutdown-mid-handshake-and-mid-relay")
+	// the listener closes immediately after a connection was accepted (its handler has not even
+	// started): serving must still not stop before that handler has returned
+	for i := 0; i < c.N(20, 100); i++ {
+		k := keys[i%len(keys)]
+		rg := StartTCPRig(keys, TCPRigOpts{Timeout: 600 * time.Millisecond, CloseAfterAccepts: 1, Raw: i%2 == 0})
+		caseN := nextID(c.Batch)
+		ip := caseIP4(caseN & 0xffffff)
+		hub.On(ip.String(), func(tc *TargetConn) {
+			buf := make([]byte, 64)
+			tc.SetReadDeadline(time.Now().Add(udpB))
+			n, _ := tc.Read(buf)
+			time.Sleep(40 * time.Millisecond) // the handler is busy for a while
+			tc.Write(buf[:n])
+			tc.Close()
+		})
+		cl, err := DialSS(rg.Addr4(), randSrc4(r), k, randBytes(r, k.Codec().C.SaltSize))
+		if err != nil {
+			hub.Off(ip.String())
+			rg.Close(time.Second)
+			continue
+		}
+		cl.WriteRaw(cl.Enc.Encode(append(addrOK(ip), 'y'), nil))
+		got, _ := cl.ReadAllPlain(time.Now().Add(udpB))
+		cl.Conn.Close()
+		select {
+		case <-rg.done:
+		case <-time.After(udpB):
+			c.Violation("C18/serving-does-not-stop-after-listener-closed", "listener closed right after accept")
+			return false
+		}
+		rec, _ := rg.WaitDone(cl.Local, udpB)
+		hub.Off(ip.String())
+		c.Eval("tcp|listener-closed-right-after-accept")
+		if rec == nil || rec.Snap().Returned.IsZero() || rg.serveReturned.Load() < rec.Snap().Returned.UnixNano() {
+			c.Violation("C18/serving-stopped-before-handlers-returned", map[string]any{"scenario": "listener closed right after accept", "round": i})
+			return false
+		}
+		_ = got
+		c.Count("close_right_after_accept_orderings_checked", 1)
+	}
 	return true
 }
 
@@ -546,6 +597,22 @@ func c18UDP(c *vk.Ctx, r *rand.Rand, catcher *panicCatcher) bool {
 		c.Violation("C18/packet-handler-does-not-return-after-listener-closed", "")
 		return false
 	}
+	// every outbound socket the server created was closed BY THE SERVER (hook H2 sees the Close
+	// call; the fd table alone cannot tell, because Go's finalizers close forgotten sockets)
+	deadline := time.Now().Add(udpB)
+	for _, s := range w.rig.Nat.All() {
+		for {
+			if _, n := s.Closed(); n > 0 || time.Now().After(deadline) {
+				break
+			}
+			time.Sleep(2 * time.Millisecond)
+		}
+		if _, n := s.Closed(); n == 0 {
+			c.Violation("C18/outbound-socket-never-closed", map[string]any{"socket": s.Local, "sockets_created": len(w.rig.Nat.All())})
+			return false
+		}
+	}
+	c.Count("outbound_sockets_closed_by_server", int64(len(w.rig.Nat.All())))
 	return true
 }
 
@@ -555,7 +622,24 @@ func c18Run(c *vk.Ctx) {
 	catcher := &panicCatcher{}
 	slog.SetDefault(slog.New(catcher))
 	baseFD := len(lab.FDs(os.Getpid()))
-	if !c18TCP(c, r, catcher) {
+	// With the garbage collector off, a socket the server forgot to close stays open (otherwise
+	// Go's finalizers would close it at the next collection and hide the leak).
+	gc := debug.SetGCPercent(-1)
+	okTCP := c18TCP(c, r, catcher)
+	if okTCP {
+		deadline := time.Now().Add(5 * time.Second)
+		for len(lab.FDs(os.Getpid())) > baseFD+1 && time.Now().Before(deadline) {
+			time.Sleep(20 * time.Millisecond)
+		}
+		if n := len(lab.FDs(os.Getpid())); n > baseFD+1 {
+			c.Violation("C18/socket-leak", map[string]any{"phase": "tcp, garbage collector off", "baseline": baseFD, "now": n})
+			okTCP = false
+		} else {
+			c.Count("fd_audits_with_gc_off", 1)
+		}
+	}
+	debug.SetGCPercent(gc)
+	if !okTCP {
 		return
 	}
 	if !c18UDP(c, r, catcher) {
@@ -596,7 +680,7 @@ func init() {
 			return "", false
 		},
 		Run: func(c *vk.Ctx) {
-			for _, s := range []string{"tcp_hostile_cases_survived", "udp_hostile_cases_survived", "tcp_shutdown_orderings_checked", "udp_reply_cases_v4", "udp_reply_cases_v6", "udp_reply_cases_zoned-link-local", "leak_audits_passed"} {
+			for _, s := range []string{"tcp_hostile_cases_survived", "udp_hostile_cases_survived", "tcp_shutdown_orderings_checked", "udp_reply_cases_v4", "udp_reply_cases_v6", "udp_reply_cases_zoned-link-local", "leak_audits_passed", "close_right_after_accept_orderings_checked"} {
 				c.Require(s)
 			}
 			c18Run(c)
